@@ -91,6 +91,20 @@ CHECKS = {
             'Each case embeds a unique constant so that code objects of different cases never compare equal (cache aliasing is '
             'C10\'s subject).',
             'DESIGN.md 2/C09'),
+    'C10': ('model_checking',
+            'explicit-state breadth-first search over request histories on the real transpiler against a dict reference model + exhaustive schedule exploration under a cooperative scheduler with preemption bounding',
+            'Histories: BFS (depth 3, thorough 4) over requests {transform, convert() wrapper call, converted_call} x 5 function pools '
+            '(two closures of one factory, equal code in two globals dicts + a defaults-less FunctionType copy, loop functions with '
+            'different defaults, lambda, redefinition under the same name/file/line) x 6 option values (two equal-but-distinct, four '
+            'differing from them in exactly one field); each state is rebuilt by replaying its history on a fresh transpiler; every '
+            'transition must behave like a fresh conversion of that very function object and run the transformation iff the '
+            'reference dict lacks the key; plus a define/convert/collect/redefine history. Schedules: 2 threads x 1-2 requests and '
+            '3 threads x 1 request on colliding keys, all schedules with <= 2 preemptions (identity transform) and <= 1 (real '
+            'AutoGraph transpiler), ~18k schedules, cache lock replaced by a scheduler-aware lock: no error, no deadlock, one '
+            'transformation and one generated module per key, each thread gets its own function.',
+            'Scheduling points = traced lines of pyct/transpiler.py (outside transform_ast) and pyct/cache.py + lock operations; '
+            '"1..32 threads with randomized barriers" of the quantifier is replaced by the exhaustive 2-3 thread core (not claimed).',
+            'DESIGN.md 2/C10'),
     'C11': ('exploration',
             'exhaustive enumeration of adversarial identifier x role x control skeleton; differential execution on all tapes + Namer.new_symbol interception',
             'Each name of the converter vocabulary (19 quick; + numbered variants and pairs thorough) is placed in 12 roles (state '
